@@ -68,6 +68,8 @@ type runStats struct {
 	PackedTxs    int               `json:"pool_txs_packed"`
 	WholeWalks   uint64            `json:"whole_state_walks"`
 	JustObs      uint64            `json:"justified_observations"`
+	JustSkipped  uint64            `json:"justified_observations_not_judged_best_off_finalized"`
+	OffFinalized int               `json:"imports_after_which_best_does_not_descend_from_finalized"`
 	NextObs      uint64            `json:"next_revision_requests"`
 	Quiesce      map[string]any    `json:"quiescence,omitempty"`
 	Violations   []violation       `json:"violations,omitempty"`
@@ -286,10 +288,28 @@ func (w *world) concurrentRun(si, ri int, dir string, nReaders, tracecap int, na
 		b, _ := json.Marshal(fw)
 		add("query-wrote-to-store:"+fw.Class, "a goroutine other than the importer wrote to the key-value store during the run: "+fw.Keys, []string{string(b)})
 	}
+	// intervals (in stamps) during which the node's best block may not have descended from its finalized checkpoint:
+	// from the Begin of the import after which that holds to the Done of the import that ends it
+	var off [][2]uint64
+	isOff := false
 	for _, ev := range rc.imp {
 		if ev.e == "Done" {
 			st.Stored++
+			now := w.facts[ev.bestID] == nil || w.facts[ev.finID] == nil || !w.isAnc(ev.finID, ev.bestID)
+			if now {
+				st.OffFinalized++
+			}
+			switch {
+			case now && !isOff:
+				off = append(off, [2]uint64{ev.t0, ^uint64(0)})
+			case !now && isOff:
+				off[len(off)-1][1] = ev.t
+			}
+			isOff = now
 		}
+	}
+	for _, r := range readers {
+		r.judgeJustified(off, noStamp)
 	}
 	st.Proposed = w.propose
 	st.OwnBlocks, st.StaleBlocks, st.PackedTxs = rc.ownBlocks, rc.staleBlocks, rc.packedTxs
@@ -370,6 +390,7 @@ func (w *world) concurrentRun(si, ri int, dir string, nReaders, tracecap int, na
 		st.APICalls += r.apiCalls
 		st.WholeWalks += r.nWalks
 		st.JustObs += r.nJust
+		st.JustSkipped += r.nJustSkipped
 		st.NextObs += r.nNext
 		st.API4xx += r.api4xx
 		for p, c := range r.byPhase {
